@@ -29,22 +29,34 @@ def closure(facts: Set[Tuple[int, str, int]], cls_of: Dict[int, str], taker_of: 
     """Least fixpoint of sub-property, inverse and transitivity rules over (source, property, target) facts."""
     out = set(facts)
     frontier = list(out)
+
+    def held_by(cls_name, descriptor):
+        """The property of class `cls_name` whose field is managed by exactly this descriptor class."""
+        for name, q in PROPS.items():
+            if q["cls"] == cls_name and q["descriptor"] == descriptor:
+                return name
+        return None
+
     while frontier:
         s, P, t = frontier.pop()
         p = PROPS[P]
         new = []
-        for Q in p["supers"]:
-            q = PROPS[Q]
-            if q["cls"] == cls_of[s]:
-                new.append((s, Q, t))
-            elif taker_of.get(s) is not None and q["cls"] == cls_of[taker_of[s]]:
-                new.append((taker_of[s], Q, t))
+        for super_descriptor in p["supers"]:
+            on_source = held_by(cls_of[s], super_descriptor)
+            if on_source:
+                new.append((s, on_source, t))
+            if taker_of.get(s) is not None:
+                on_taker = held_by(cls_of[taker_of[s]], super_descriptor)
+                if on_taker:
+                    new.append((taker_of[s], on_taker, t))
         if p["inverse"]:
-            i = PROPS[p["inverse"]]
-            if i["cls"] == cls_of[t]:
-                new.append((t, p["inverse"], s))
-            elif taker_of.get(t) is not None and i["cls"] == cls_of[taker_of[t]]:
-                new.append((taker_of[t], p["inverse"], s))
+            on_target = held_by(cls_of[t], p["inverse"])
+            if on_target:
+                new.append((t, on_target, s))
+            elif taker_of.get(t) is not None:
+                on_taker = held_by(cls_of[taker_of[t]], p["inverse"])
+                if on_taker:
+                    new.append((taker_of[t], on_taker, s))
         if p["transitive"]:
             for (s2, P2, t2) in list(out):
                 if P2 != P:
@@ -123,6 +135,9 @@ def write(pop: Population, s: int, field: str, t: int, path: str, counters) -> s
         elif path == "insert0":
             cur.insert(0, to)
             used = path
+        elif path == "iadd":
+            exec(f"o.{field} += [x]", {"o": so, "x": to})
+            used = path
         else:
             cur.append(to)
             used = "append"
@@ -133,6 +148,9 @@ def write(pop: Population, s: int, field: str, t: int, path: str, counters) -> s
             used = path
         elif path == "update":
             cur.update({to})
+            used = path
+        elif path == "ior":
+            exec(f"o.{field} |= {{x}}", {"o": so, "x": to})
             used = path
         else:
             cur.add(to)
